@@ -106,6 +106,15 @@ Theorem c18_msg_identity :
 Proof. exact world_reason_thm. Qed.
 Print Assumptions c18_msg_identity.
 
+(* the symbolic sources of c18_order are what descriptors 0/1/2 end up as, for
+   every numbering of the pipe ends with child_stdout <> 0 and child_stderr
+   not in {0, 1} (true of the numbers os.pipe() hands out in make_pipes) *)
+Theorem c18_fd_table :
+  forall a b c, b <> 0 -> c <> 0 -> c <> 1 ->
+  after_fds a b c 0 = a /\ after_fds a b c 1 = b /\ after_fds a b c 2 = c.
+Proof. exact fd_table_ok. Qed.
+Print Assumptions c18_fd_table.
+
 (* drop_privileges *)
 Theorem c18_drop_none_switches :
   forall er o w u l,
